@@ -125,7 +125,7 @@ class UniKit:
         if choice == "collect":
             pos = rng.choice(positions)
             p = m.positions[pos]
-            cc = rng.choice(["none", "half", "over", "over0", "over1", "cross", "negative", "zero"])
+            cc = rng.choice(["none", "half", "over", "over0", "over1", "cross", "negative", "zero", "zero0", "zero1"])
             big = max(p.pending_amount0, p.pending_amount1, Decimal("1e-6"))
             if cc == "none":
                 a0 = a1 = None
@@ -141,6 +141,10 @@ class UniKit:
             elif cc == "cross":  # each cap lies between the two pending amounts (above one of them, below the other)
                 mid = (p.pending_amount0 + p.pending_amount1) / 2 + Decimal("1e-9")
                 a0 = a1 = mid if rng.random() < 0.5 else big * 2
+            elif cc == "zero0":  # nothing of token0, everything of token1
+                a0, a1 = Decimal(0), None
+            elif cc == "zero1":
+                a0, a1 = None, Decimal(0)
             elif cc == "negative":
                 a0, a1 = -p.pending_amount0 - Decimal("1e-9"), -p.pending_amount1 - Decimal("1e-9")
             else:
